@@ -49,6 +49,10 @@ def check_run(run, obs):
     nontrivial = False
     for side, other in (('A', 'B'), ('B', 'A')):
         probs, counters = tcpcl_seq.check_direction(msgs[side], wires[side][1], msgs[other], side)
+        if wires[side][1] == 'partial' and not run.closed(side) and not getattr(run, 'ended_at_horizon', False):
+            # the world is quiescent, the connection open, and what this side has written ends in the middle of a message
+            probs = probs + ['%s: the octets written end inside a message although the endpoint has nothing more to write (the connection is open and '
+                             'quiet): a length field does not match what follows' % side]
         obs['messages_checked'] += counters['messages']
         obs['segments_checked'] += counters['segments']
         obs['acks_checked'] += counters['acks']
